@@ -28,7 +28,7 @@ VERDICT = {
     "C09-1": ("C09 K2b", "kernel added after the miss"),
     "C09-2": ("C02 K3a", "kernel added after the miss"),
     "C10-1": ("C10", "find_stale_sccs partitions added after the miss"),
-    "C10-2": (None, "process history (module-level state surviving builds) is not encodable; outside the claim"),
+    "C10-2": ("C10 H1", "history kernel for the known-modules memo added after the miss; replay = two builds through mypy.api in one process vs a fresh process"),
     "C11-1": ("C11 K2b", ""),
     "C11-2": ("C11 K2b", ""),
     "C12-1": ("C12 K1", "arity kernel added after the miss"),
